@@ -114,16 +114,53 @@ func (in *c32Inst) Events() []string {
 	evs = append(evs, "bindold:A1", "bindold:B1", "bindinv", "ackx:uid:A1", "ackx:sid:A1", "closex", "expire:0", "drain")
 	for s := 0; s < 2; s++ {
 		for m := 0; m < 2; m++ {
-			hs := in.held[in.key(s, m)]
-			for i := range hs {
-				evs = append(evs, fmt.Sprintf("finish:%s:%d", c32SM(s, m), i), fmt.Sprintf("cancel:%s:%d", c32SM(s, m), i))
+			live, dead := in.tokens(in.key(s, m))
+			// every in-flight token (by position among the identity's attempts), and the
+			// most recent consumed/stale one (all dead tokens of one identity are the same
+			// question to the tracker)
+			for i := range live {
+				evs = append(evs, fmt.Sprintf("finish:%s:a%d", c32SM(s, m), i), fmt.Sprintf("cancel:%s:a%d", c32SM(s, m), i))
 			}
-			if n := len(hs); n > 0 {
-				evs = append(evs, fmt.Sprintf("xcancel:%s:%d", c32SM(s, m), n-1))
+			if dead != nil {
+				evs = append(evs, fmt.Sprintf("finish:%s:dead", c32SM(s, m)), fmt.Sprintf("cancel:%s:dead", c32SM(s, m)))
+			}
+			// a token presented for the session's other message: the newest in-flight one,
+			// else the newest dead one
+			if len(live) > 0 || dead != nil {
+				evs = append(evs, "xcancel:"+c32SM(s, m))
 			}
 		}
 	}
 	return evs
+}
+
+// tokens returns the in-flight tokens of k in bind order and its newest dead token.
+func (in *c32Inst) tokens(k c32Key) (live []*c32Tok, dead *c32Tok) {
+	for _, h := range in.held[k] {
+		if h.dead != 0 {
+			dead = h
+		} else {
+			live = append(live, h)
+		}
+	}
+	return live, dead
+}
+
+// pick resolves the token selector of an event label (aN = N-th in-flight, dead, "" = newest).
+func (in *c32Inst) pick(k c32Key, sel string) *c32Tok {
+	live, dead := in.tokens(k)
+	switch {
+	case sel == "dead":
+		return dead
+	case sel == "":
+		if len(live) > 0 {
+			return live[len(live)-1]
+		}
+		return dead
+	default:
+		i, _ := strconv.Atoi(sel[1:])
+		return live[i]
+	}
 }
 
 // sweep marks held tokens whose attempt left the model.
@@ -285,8 +322,11 @@ func (in *c32Inst) Apply(evl string, _ *mc.Env) (string, error) {
 		obs = fmt.Sprintf("finishbatch:%d", want)
 	case "finish", "cancel", "xcancel":
 		s, m := c32ParseSM(parts[1])
-		i, _ := strconv.Atoi(parts[2])
-		h := in.held[in.key(s, m)][i]
+		sel := ""
+		if len(parts) > 2 {
+			sel = parts[2]
+		}
+		h := in.pick(in.key(s, m), sel)
 		switch parts[0] {
 		case "finish":
 			got := in.tr.FinishBind(h.pend, h.tok)
